@@ -192,7 +192,11 @@ def check(pid, tier):
     reported = 0
     for ci, oi, j in disagreements[:3]:
         case = cases[ci]
-        ctx = [l for l in case[:oi] if l.startswith("img ")][-1:]
+        ctx = []
+        for j in range(oi - 1, -1, -1):
+            if case[j].startswith("img "):
+                ctx = [case[j]] + [l for l in case[j + 1:oi] if l.startswith("img_to_")]
+                break
         lines = ctx + [case[oi]]
         found_input = j["kind"] == "spec" or (P.determined and j.get("hyp") in ("1", None))
         p = write_replay(pid, seed, reported, lines, {"property": pid, "kind": j["kind"], "detail": j["text"][:1000],
